@@ -581,3 +581,513 @@ Proof.
   destruct (Z.eqb (c_depth y) d); destruct (Z.eqb (c_width y) w);
     destruct (py_eq (PStr (c_algo y)) a); destruct (py_eq (PStr (c_ns y)) n); reflexivity.
 Qed.
+
+(* ------------------------------------------------------------------ *)
+(* Opening an existing store                                           *)
+(* ------------------------------------------------------------------ *)
+
+(* Opening a store that has a hashstore.yaml succeeds ONLY with an equal configuration: the
+   five keys are present and not None, depth and width convert (int, bool, int-like str) to the
+   pinned integers, and algorithm and namespace are the pinned strings (a non-str value never
+   matches).  ([vd <> PNone] and [vw <> PNone] are implied by [py_int _ = Some _];
+   [PStr _ <> PNone] trivially.) *)
+Theorem open_iff : forall y re dd (p : props),
+  (exists c eff, open_decision (Some y) re dd (Some p) = Accept c eff) <->
+  (p <> [] /\
+   (exists vp, get "store_path" p = Some vp /\ vp <> PNone) /\
+   (exists vd, get "store_depth" p = Some vd /\ py_int vd = Some (c_depth y)) /\
+   (exists vw, get "store_width" p = Some vw /\ py_int vw = Some (c_width y)) /\
+   get "store_algorithm" p = Some (PStr (c_algo y)) /\
+   get "store_metadata_namespace" p = Some (PStr (c_ns y))).
+Proof.
+  intros y re dd p. rewrite open_existing_eq. split.
+  - intros [c [eff Hacc]].
+    destruct (validate (Some p)) as [e | [[[[vp d] w] a] n]] eqn:Hv; [discriminate Hacc|].
+    destruct (same_cfg y d w a n) eqn:Hsame; [|discriminate Hacc].
+    apply same_cfg_true in Hsame. destruct Hsame as [Hd [Hw [Ha Hn]]]. subst d w a n.
+    apply validate_ok_iff in Hv.
+    destruct Hv as [Hne [Hp [Hd [Hw [[Ha _] [Hn _]]]]]].
+    split; [exact Hne|]. split; [exists vp; exact Hp|].
+    split; [exact Hd|]. split; [exact Hw|]. split; assumption.
+  - intros [Hne [[vp Hp] [Hd [Hw [Ha Hn]]]]].
+    assert (Hv : validate (Some p) =
+                 inr (vp, c_depth y, c_width y, PStr (c_algo y), PStr (c_ns y))).
+    { apply validate_ok_iff. split; [exact Hne|]. split; [exact Hp|].
+      split; [exact Hd|]. split; [exact Hw|].
+      split; (split; [assumption | discriminate]). }
+    rewrite Hv.
+    assert (Hsame : same_cfg y (c_depth y) (c_width y) (PStr (c_algo y)) (PStr (c_ns y)) = true).
+    { apply same_cfg_true. repeat split; reflexivity. }
+    rewrite Hsame. exists y, (data_effects dd). reflexivity.
+Qed.
+
+(* An accepted open of an existing store returns the PINNED configuration, and its only
+   possible effect is the creation of missing data directories. *)
+Theorem accept_existing_returns_pinned : forall y re dd p c eff,
+  open_decision (Some y) re dd p = Accept c eff ->
+  c = y /\ eff = (if dd then [] else [EfMkDataDirs]) /\
+  forall e, In e eff -> e = EfMkDataDirs.
+Proof.
+  intros y re dd p c eff Hacc. rewrite open_existing_eq in Hacc.
+  destruct (validate p) as [e | [[[[vp d] w] a] n]] eqn:Hv; [discriminate Hacc|].
+  destruct (same_cfg y d w a n) eqn:Hsame; [|discriminate Hacc].
+  injection Hacc as Hc Heff. subst c eff. split; [reflexivity|]. split; [reflexivity|].
+  intros e Hin. unfold data_effects in Hin. destruct dd; simpl in Hin.
+  - contradiction.
+  - destruct Hin as [Hin | Hin]; [symmetry; exact Hin | contradiction].
+Qed.
+
+Theorem yaml_never_rewritten : forall y re dd p c eff c',
+  open_decision (Some y) re dd p = Accept c eff ->
+  ~ In (EfWriteYaml c') eff /\ ~ In EfMkRoot eff.
+Proof.
+  intros y re dd p c eff c' Hacc.
+  destruct (accept_existing_returns_pinned _ _ _ _ _ _ Hacc) as [_ [_ Hall]].
+  split; intros Hin; apply Hall in Hin; discriminate Hin.
+Qed.
+
+(* [Refuse] carries no effect list: a refused constructor call is modelled as issuing no
+   mutating operation, BY CONSTRUCTION of [decision] (every [Refuse] in [open_decision] sits
+   before the first effect of the corresponding Python path: validation, the yaml comparison,
+   the RuntimeError test and the algorithm gate all precede [_create_path]/[open(...,"w")]).
+   That the Python program really issues no mutating operation on those paths is a
+   correspondence obligation (tree snapshot before/after), not something this type can prove. *)
+Theorem effects_only_on_accept : forall y re dd p,
+  (forall e, open_decision y re dd p = Refuse e -> effects_of (open_decision y re dd p) = []) /\
+  (effects_of (open_decision y re dd p) <> [] ->
+   exists c, open_decision y re dd p = Accept c (effects_of (open_decision y re dd p))).
+Proof.
+  intros y re dd p. split.
+  - intros e Href. rewrite Href. reflexivity.
+  - intros Hne. destruct (open_decision y re dd p) as [c eff | e].
+    + exists c. reflexivity.
+    + exfalso. apply Hne. reflexivity.
+Qed.
+
+Lemma reopen_mismatch_refused_validated : forall y re dd p vp d w a n,
+  validate p = inr (vp, d, w, a, n) ->
+  (d <> c_depth y \/ w <> c_width y \/ a <> PStr (c_algo y) \/ n <> PStr (c_ns y)) ->
+  open_decision (Some y) re dd p = Refuse EValueError.
+Proof.
+  intros y re dd p vp d w a n Hv Hdiff. rewrite open_existing_eq, Hv.
+  destruct (same_cfg y d w a n) eqn:Hsame; [|reflexivity].
+  apply same_cfg_true in Hsame. destruct Hsame as [Hd [Hw [Ha Hn]]].
+  exfalso. destruct Hdiff as [H | [H | [H | H]]]; apply H; assumption.
+Qed.
+
+(* Every valid properties dict that differs from the pinned configuration in ANY of the four
+   values is refused with ValueError. *)
+Theorem reopen_mismatch_refused : forall y re dd (p : props) t vd vw va vn,
+  validate (Some p) = inr t ->
+  get "store_depth" p = Some vd -> get "store_width" p = Some vw ->
+  get "store_algorithm" p = Some va -> get "store_metadata_namespace" p = Some vn ->
+  (py_int vd <> Some (c_depth y) \/ py_int vw <> Some (c_width y) \/
+   va <> PStr (c_algo y) \/ vn <> PStr (c_ns y)) ->
+  open_decision (Some y) re dd (Some p) = Refuse EValueError.
+Proof.
+  intros y re dd p [[[[vp d] w] a] n] vd vw va vn Hv Hgd Hgw Hga Hgn Hdiff.
+  pose proof Hv as Hv'. apply validate_ok_iff in Hv'.
+  destruct Hv' as [_ [_ [[vd' [Hgd' Hd]] [[vw' [Hgw' Hw]] [[Hga' _] [Hgn' _]]]]]].
+  rewrite Hgd in Hgd'. injection Hgd' as Hgd'. subst vd'.
+  rewrite Hgw in Hgw'. injection Hgw' as Hgw'. subst vw'.
+  rewrite Hga in Hga'. injection Hga' as Hga'. subst va.
+  rewrite Hgn in Hgn'. injection Hgn' as Hgn'. subst vn.
+  apply (reopen_mismatch_refused_validated _ _ _ _ _ _ _ _ _ Hv).
+  destruct Hdiff as [H | [H | [H | H]]].
+  - left. intros Heq. apply H. rewrite Hd, Heq. reflexivity.
+  - right. left. intros Heq. apply H. rewrite Hw, Heq. reflexivity.
+  - right. right. left. exact H.
+  - right. right. right. exact H.
+Qed.
+
+(* ------------------------------------------------------------------ *)
+(* Creating a store                                                    *)
+(* ------------------------------------------------------------------ *)
+
+Theorem create_accept_iff : forall re dd p c eff,
+  open_decision None re dd p = Accept c eff <->
+  re && dd = false /\
+  (exists vp, validate p = inr (vp, c_depth c, c_width c, PStr (c_algo c), PStr (c_ns c))) /\
+  In (c_algo c) accepted_store_algorithms /\
+  eff = ((if re then [] else [EfMkRoot]) ++ [EfWriteYaml c; EfMkDataDirs])%list.
+Proof.
+  intros re dd p c eff. unfold open_decision. split.
+  - intros Hacc.
+    destruct (validate p) as [e | [[[[vp d] w] a] n]] eqn:Hv; [discriminate Hacc|].
+    destruct (re && dd) eqn:Hrd; [discriminate Hacc|].
+    destruct (accepted_algo a) as [algo|] eqn:Halgo; [|discriminate Hacc].
+    apply accepted_algo_some in Halgo. destruct Halgo as [Ha Hin]. subst a.
+    destruct n; try discriminate Hacc.
+    injection Hacc as Hc Heff. subst c eff. simpl.
+    split; [reflexivity|]. split; [exists vp; reflexivity|]. split; [exact Hin|].
+    unfold root_effects. reflexivity.
+  - intros [Hrd [[vp Hv] [Hin Heff]]]. rewrite Hv, Hrd.
+    assert (Halgo : accepted_algo (PStr (c_algo c)) = Some (c_algo c)).
+    { apply accepted_algo_some. split; [reflexivity | exact Hin]. }
+    rewrite Halgo. subst eff. destruct c as [cd cw ca cn]. reflexivity.
+Qed.
+
+(* An algorithm value that is not one of the five DataONE names is refused when a store would
+   be created, before anything is created. *)
+Theorem unsupported_algorithm_refused : forall re dd p vp d w a n,
+  re && dd = false ->
+  validate p = inr (vp, d, w, a, n) ->
+  (forall s, In s accepted_store_algorithms -> a <> PStr s) ->
+  open_decision None re dd p = Refuse EValueError.
+Proof.
+  intros re dd p vp d w a n Hrd Hv Hbad. unfold open_decision. rewrite Hv, Hrd.
+  apply accepted_algo_none in Hbad. rewrite Hbad. reflexivity.
+Qed.
+
+(* Data directories without a configuration file: RuntimeError, whatever valid properties
+   (including an unsupported algorithm) are supplied. *)
+Theorem no_yaml_with_data_refused : forall p t,
+  validate p = inr t -> open_decision None true true p = Refuse ERuntimeError.
+Proof.
+  intros p [[[[vp d] w] a] n] Hv. unfold open_decision. rewrite Hv. reflexivity.
+Qed.
+
+(* A store reopened with the very properties it was created with is accepted and keeps the
+   written configuration -- for ALL depths, widths, namespaces and int/str encodings. *)
+Theorem create_then_reopen : forall re dd (p : props) c eff,
+  open_decision None re dd (Some p) = Accept c eff ->
+  In (EfWriteYaml c) eff /\
+  (exists eff', open_decision (Some c) true true (Some p) = Accept c eff') /\
+  forall re' dd', open_decision (Some c) re' dd' (Some p)
+                  = Accept c (if dd' then [] else [EfMkDataDirs]).
+Proof.
+  intros re dd p c eff Hacc. apply create_accept_iff in Hacc.
+  destruct Hacc as [_ [[vp Hv] [_ Heff]]].
+  assert (Hre : forall re' dd', open_decision (Some c) re' dd' (Some p)
+                                = Accept c (if dd' then [] else [EfMkDataDirs])).
+  { intros re' dd'. rewrite open_existing_eq, Hv.
+    assert (Hsame : same_cfg c (c_depth c) (c_width c) (PStr (c_algo c)) (PStr (c_ns c)) = true).
+    { apply same_cfg_true. repeat split; reflexivity. }
+    rewrite Hsame. reflexivity. }
+  split.
+  - subst eff. apply in_or_app. right. left. reflexivity.
+  - split; [|exact Hre]. exists []. apply (Hre true true).
+Qed.
+
+(* [out_of_model] marks exactly the creations with a namespace that is not a str. *)
+Theorem out_of_model_iff : forall y re dd p,
+  open_decision y re dd p = Refuse out_of_model <->
+  y = None /\ re && dd = false /\
+  exists vp d w a n algo,
+    validate p = inr (vp, d, w, a, n) /\ accepted_algo a = Some algo /\
+    (forall s, n <> PStr s).
+Proof.
+  intros y re dd p. split.
+  - intros Href. destruct y as [y|].
+    + rewrite open_existing_eq in Href.
+      destruct (validate p) as [e | [[[[vp d] w] a] n]] eqn:Hv.
+      * exfalso. injection Href as He. subst e.
+        destruct p as [[|kv r]|]; simpl in Hv; try discriminate Hv.
+        unfold validate_dict, req_int, req in Hv.
+        repeat match type of Hv with
+               | context [match get ?k ?q with _ => _ end] => destruct (get k q)
+               | context [if is_none ?v then _ else _] => destruct (is_none v)
+               | context [match py_int ?v with _ => _ end] => destruct (py_int v)
+               end; discriminate Hv.
+      * destruct (same_cfg y d w a n); discriminate Href.
+    + unfold open_decision in Href.
+      destruct (validate p) as [e | [[[[vp d] w] a] n]] eqn:Hv.
+      * exfalso. injection Href as He. subst e.
+        destruct p as [[|kv r]|]; simpl in Hv; try discriminate Hv.
+        unfold validate_dict, req_int, req in Hv.
+        repeat match type of Hv with
+               | context [match get ?k ?q with _ => _ end] => destruct (get k q)
+               | context [if is_none ?v then _ else _] => destruct (is_none v)
+               | context [match py_int ?v with _ => _ end] => destruct (py_int v)
+               end; discriminate Hv.
+      * destruct (re && dd) eqn:Hrd; [discriminate Href|].
+        destruct (accepted_algo a) as [algo|] eqn:Halgo; [|discriminate Href].
+        split; [reflexivity|]. split; [reflexivity|].
+        exists vp, d, w, a, n, algo. split; [reflexivity|]. split; [exact Halgo|].
+        intros s Hn. subst n. discriminate Href.
+  - intros [Hy [Hrd [vp [d [w [a [n [algo [Hv [Halgo Hn]]]]]]]]]]. subst y.
+    unfold open_decision. rewrite Hv, Hrd, Halgo.
+    destruct n; try reflexivity. exfalso. apply (Hn s). reflexivity.
+Qed.
+
+(* ------------------------------------------------------------------ *)
+(* Refusals from validation: the FIRST bad key, in key order, decides  *)
+(* ------------------------------------------------------------------ *)
+
+Theorem no_props_refused : forall y re dd,
+  open_decision y re dd None = Refuse EValueError /\
+  open_decision y re dd (Some []) = Refuse EValueError.
+Proof. intros y re dd. split; reflexivity. Qed.
+
+(* what [key_error k p = None] ("key k passes the loop body") means *)
+Lemma key_error_none_iff : forall k p,
+  key_error k p = None <->
+  exists v, get k p = Some v /\ v <> PNone /\ (int_key k = true -> py_int v <> None).
+Proof.
+  intros k p. unfold key_error. destruct (int_key k) eqn:Hik.
+  - destruct (req_int k p) as [e|z] eqn:Hr.
+    + split; [intros H; discriminate H|].
+      intros [v [Hget [Hnn Hint]]]. specialize (Hint eq_refl).
+      destruct (py_int v) as [z|] eqn:Hpi; [|exfalso; apply Hint; reflexivity].
+      assert (Hr' : req_int k p = inr z) by (apply req_int_inr; exists v; split; assumption).
+      rewrite Hr' in Hr. discriminate Hr.
+    + split; [|reflexivity]. intros _. apply req_int_inr in Hr.
+      destruct Hr as [v [Hget Hpi]]. exists v. split; [exact Hget|].
+      split; [exact (py_int_not_none _ _ Hpi)|]. intros _. rewrite Hpi. discriminate.
+  - destruct (req k p) as [e|v] eqn:Hr.
+    + split; [intros H; discriminate H|].
+      intros [v [Hget [Hnn _]]].
+      assert (Hr' : req k p = inr v) by (apply req_inr; split; assumption).
+      rewrite Hr' in Hr. discriminate Hr.
+    + split; [|reflexivity]. intros _. apply req_inr in Hr. destruct Hr as [Hget Hnn].
+      exists v. split; [exact Hget|]. split; [exact Hnn|]. intros H. discriminate H.
+Qed.
+
+Lemma key_error_path : forall p, key_error "store_path" p =
+  match req "store_path" p with inl e => Some e | inr _ => None end.
+Proof. reflexivity. Qed.
+Lemma key_error_depth : forall p, key_error "store_depth" p =
+  match req_int "store_depth" p with inl e => Some e | inr _ => None end.
+Proof. reflexivity. Qed.
+Lemma key_error_width : forall p, key_error "store_width" p =
+  match req_int "store_width" p with inl e => Some e | inr _ => None end.
+Proof. reflexivity. Qed.
+Lemma key_error_algo : forall p, key_error "store_algorithm" p =
+  match req "store_algorithm" p with inl e => Some e | inr _ => None end.
+Proof. reflexivity. Qed.
+Lemma key_error_ns : forall p, key_error "store_metadata_namespace" p =
+  match req "store_metadata_namespace" p with inl e => Some e | inr _ => None end.
+Proof. reflexivity. Qed.
+
+Lemma validate_dict_first_bad : forall p pre k post e,
+  required_keys = (pre ++ k :: post)%list ->
+  (forall k', In k' pre -> key_error k' p = None) ->
+  key_error k p = Some e ->
+  validate_dict p = inl e.
+Proof.
+  intros p pre k post e Hsplit Hpre Hbad. unfold required_keys in Hsplit.
+  unfold validate_dict.
+  (* store_path *)
+  destruct pre as [|k0 pre]; simpl in Hsplit; injection Hsplit as Hk Hsplit.
+  { subst k. rewrite key_error_path in Hbad.
+    destruct (req "store_path" p) as [e1|v1]; [|discriminate Hbad].
+    injection Hbad as Hbad. subst e1. reflexivity. }
+  subst k0. pose proof (Hpre "store_path" (or_introl eq_refl)) as H1.
+  rewrite key_error_path in H1.
+  destruct (req "store_path" p) as [e1|v1]; [discriminate H1|]. clear H1.
+  (* store_depth *)
+  destruct pre as [|k1 pre]; simpl in Hsplit; injection Hsplit as Hk Hsplit.
+  { subst k. rewrite key_error_depth in Hbad.
+    destruct (req_int "store_depth" p) as [e2|v2]; [|discriminate Hbad].
+    injection Hbad as Hbad. subst e2. reflexivity. }
+  subst k1. pose proof (Hpre "store_depth" (or_intror (or_introl eq_refl))) as H2.
+  rewrite key_error_depth in H2.
+  destruct (req_int "store_depth" p) as [e2|v2]; [discriminate H2|]. clear H2.
+  (* store_width *)
+  destruct pre as [|k2 pre]; simpl in Hsplit; injection Hsplit as Hk Hsplit.
+  { subst k. rewrite key_error_width in Hbad.
+    destruct (req_int "store_width" p) as [e3|v3]; [|discriminate Hbad].
+    injection Hbad as Hbad. subst e3. reflexivity. }
+  subst k2.
+  pose proof (Hpre "store_width" (or_intror (or_intror (or_introl eq_refl)))) as H3.
+  rewrite key_error_width in H3.
+  destruct (req_int "store_width" p) as [e3|v3]; [discriminate H3|]. clear H3.
+  (* store_algorithm *)
+  destruct pre as [|k3 pre]; simpl in Hsplit; injection Hsplit as Hk Hsplit.
+  { subst k. rewrite key_error_algo in Hbad.
+    destruct (req "store_algorithm" p) as [e4|v4]; [|discriminate Hbad].
+    injection Hbad as Hbad. subst e4. reflexivity. }
+  subst k3.
+  pose proof (Hpre "store_algorithm"
+                   (or_intror (or_intror (or_intror (or_introl eq_refl))))) as H4.
+  rewrite key_error_algo in H4.
+  destruct (req "store_algorithm" p) as [e4|v4]; [discriminate H4|]. clear H4.
+  (* store_metadata_namespace *)
+  destruct pre as [|k4 pre]; simpl in Hsplit; injection Hsplit as Hk Hsplit.
+  { subst k. rewrite key_error_ns in Hbad.
+    destruct (req "store_metadata_namespace" p) as [e5|v5]; [|discriminate Hbad].
+    injection Hbad as Hbad. subst e5. reflexivity. }
+  (* no sixth key *)
+  exfalso. destruct pre as [|k5 pre]; simpl in Hsplit; discriminate Hsplit.
+Qed.
+
+(* The general statement: split the required keys at ANY position; if every earlier key passes
+   and key k fails with class e, the constructor raises e -- whatever the later keys, whatever
+   is on disk.  (For p = [] see [no_props_refused].) *)
+Theorem first_bad_key_decides : forall y re dd (p : props) pre k post e,
+  p <> [] ->
+  required_keys = (pre ++ k :: post)%list ->
+  (forall k', In k' pre -> key_error k' p = None) ->
+  key_error k p = Some e ->
+  open_decision y re dd (Some p) = Refuse e.
+Proof.
+  intros y re dd p pre k post e Hne Hsplit Hpre Hbad.
+  apply open_validate_inl. rewrite (validate_some _ Hne).
+  exact (validate_dict_first_bad _ _ _ _ _ Hsplit Hpre Hbad).
+Qed.
+
+(* first missing key -> KeyError *)
+Theorem missing_key_refused : forall y re dd (p : props) pre k post,
+  p <> [] ->
+  required_keys = (pre ++ k :: post)%list ->
+  (forall k', In k' pre -> key_error k' p = None) ->
+  get k p = None ->
+  open_decision y re dd (Some p) = Refuse EKeyError.
+Proof.
+  intros y re dd p pre k post Hne Hsplit Hpre Hget.
+  apply (first_bad_key_decides y re dd p pre k post EKeyError Hne Hsplit Hpre).
+  unfold key_error, req_int, req. rewrite Hget. destruct (int_key k); reflexivity.
+Qed.
+
+(* first key whose value is None -> ValueError *)
+Theorem none_value_refused : forall y re dd (p : props) pre k post,
+  p <> [] ->
+  required_keys = (pre ++ k :: post)%list ->
+  (forall k', In k' pre -> key_error k' p = None) ->
+  get k p = Some PNone ->
+  open_decision y re dd (Some p) = Refuse EValueError.
+Proof.
+  intros y re dd p pre k post Hne Hsplit Hpre Hget.
+  apply (first_bad_key_decides y re dd p pre k post EValueError Hne Hsplit Hpre).
+  unfold key_error, req_int, req. rewrite Hget. destruct (int_key k); reflexivity.
+Qed.
+
+(* depth / width that int() rejects -> ValueError *)
+Theorem non_int_refused : forall y re dd (p : props) pre k post v,
+  p <> [] ->
+  required_keys = (pre ++ k :: post)%list ->
+  (forall k', In k' pre -> key_error k' p = None) ->
+  int_key k = true -> get k p = Some v -> py_int v = None ->
+  open_decision y re dd (Some p) = Refuse EValueError.
+Proof.
+  intros y re dd p pre k post v Hne Hsplit Hpre Hik Hget Hpi.
+  apply (first_bad_key_decides y re dd p pre k post EValueError Hne Hsplit Hpre).
+  unfold key_error, req_int, req. rewrite Hik, Hget.
+  destruct (is_none v); [reflexivity|]. rewrite Hpi. reflexivity.
+Qed.
+
+(* instances, to show how the split is used *)
+Example missing_width_refused : forall y re dd (p : props),
+  p <> [] -> key_error "store_path" p = None -> key_error "store_depth" p = None ->
+  get "store_width" p = None ->
+  open_decision y re dd (Some p) = Refuse EKeyError.
+Proof.
+  intros y re dd p Hne Hp Hd Hget.
+  apply (missing_key_refused y re dd p ["store_path"; "store_depth"] "store_width"
+           ["store_algorithm"; "store_metadata_namespace"] Hne eq_refl); [|exact Hget].
+  intros k' [Hk | [Hk | Hk]]; try (subst k'; assumption). contradiction.
+Qed.
+
+(* validation never raises anything but KeyError / ValueError *)
+Theorem validate_error_classes : forall p e,
+  validate p = inl e -> e = EKeyError \/ e = EValueError.
+Proof.
+  intros p e Hv. destruct p as [[|kv r]|]; simpl in Hv;
+    try (injection Hv as Hv; subst e; right; reflexivity).
+  unfold validate_dict, req_int, req in Hv.
+  repeat match type of Hv with
+         | context [match get ?k ?q with _ => _ end] => destruct (get k q)
+         | context [if is_none ?v then _ else _] => destruct (is_none v)
+         | context [match py_int ?v with _ => _ end] => destruct (py_int v)
+         end;
+    try discriminate Hv; injection Hv as Hv; subst e; auto.
+Qed.
+
+(* ------------------------------------------------------------------ *)
+(* Extra keys                                                          *)
+(* ------------------------------------------------------------------ *)
+
+Lemma get_app_other : forall k k' v (p : props),
+  k' <> k -> get k' (p ++ [(k, v)])%list = get k' p.
+Proof.
+  intros k k' v p Hne. induction p as [|[k0 v0] r IH]; simpl.
+  - destruct (String.eqb k' k) eqn:Heq; [|reflexivity].
+    apply String.eqb_eq in Heq. exfalso. exact (Hne Heq).
+  - destruct (String.eqb k' k0); [reflexivity | exact IH].
+Qed.
+
+Lemma validate_dict_app_other : forall k v (p : props),
+  ~ In k required_keys ->
+  validate_dict (p ++ [(k, v)])%list = validate_dict p.
+Proof.
+  intros k v p Hnin. unfold validate_dict, req_int, req.
+  assert (Hk : forall k', In k' required_keys -> get k' (p ++ [(k, v)])%list = get k' p).
+  { intros k' Hin. apply get_app_other. intros Heq. subst k'. exact (Hnin Hin). }
+  rewrite (Hk "store_path"), (Hk "store_depth"), (Hk "store_width"),
+          (Hk "store_algorithm"), (Hk "store_metadata_namespace");
+    try reflexivity; unfold required_keys; simpl; auto 10.
+Qed.
+
+(* A key that is not one of the five required ones has no influence at all. *)
+Theorem extra_keys_ignored : forall y re dd (p : props) k v,
+  p <> [] -> ~ In k required_keys ->
+  open_decision y re dd (Some (p ++ [(k, v)])%list) = open_decision y re dd (Some p).
+Proof.
+  intros y re dd p k v Hne Hnin.
+  assert (Hv : validate (Some (p ++ [(k, v)])%list) = validate (Some p)).
+  { destruct p as [|kv r]; [exfalso; apply Hne; reflexivity|].
+    simpl. apply (validate_dict_app_other k v (kv :: r) Hnin). }
+  unfold open_decision. rewrite Hv. reflexivity.
+Qed.
+
+(* p <> [] is needed: {} is falsy (ValueError), {"x": 1} is truthy and lacks store_path. *)
+Example extra_keys_ignored_counterexample :
+  open_decision None false false (Some ([] ++ [("x", PInt 1)])%list) = Refuse EKeyError /\
+  open_decision None false false (Some []) = Refuse EValueError.
+Proof. split; reflexivity. Qed.
+
+(* ------------------------------------------------------------------ *)
+(* Threading / multiprocessing primitives (D5)                         *)
+(* ------------------------------------------------------------------ *)
+
+Theorem mode_of_env_iff : forall e, mode_of_env e = true <-> e = Some "True".
+Proof.
+  intros e. destruct e as [s|]; simpl.
+  - rewrite String.eqb_eq. split.
+    + intros H. subst s. reflexivity.
+    + intros H. injection H as H. exact H.
+  - split; intros H; discriminate H.
+Qed.
+
+(* repaired ([if self.use_multiprocessing:]): multiprocessing mode has its primitives *)
+Theorem init_primitives_fixed : forall e,
+  mode_of_env e = true -> has_mp_primitives true e = true.
+Proof. intros e Hm. unfold has_mp_primitives. exact Hm. Qed.
+
+(* ... and, repaired, exactly in that mode *)
+Theorem init_primitives_fixed_iff : forall e,
+  has_mp_primitives true e = mode_of_env e.
+Proof. reflexivity. Qed.
+
+(* today ([if self.use_multiprocessing == "True":], a bool compared with a str): never *)
+Theorem init_primitives_today_never : forall e, has_mp_primitives false e = false.
+Proof. intros e. reflexivity. Qed.
+
+Theorem init_primitives_today_refuted :
+  exists e, mode_of_env e = true /\ has_mp_primitives false e = false.
+Proof. exists (Some "True"). split; reflexivity. Qed.
+
+(* ------------------------------------------------------------------ *)
+
+Print Assumptions validate_ok_iff.
+Print Assumptions open_iff.
+Print Assumptions accept_existing_returns_pinned.
+Print Assumptions yaml_never_rewritten.
+Print Assumptions effects_only_on_accept.
+Print Assumptions reopen_mismatch_refused.
+Print Assumptions create_accept_iff.
+Print Assumptions unsupported_algorithm_refused.
+Print Assumptions no_yaml_with_data_refused.
+Print Assumptions create_then_reopen.
+Print Assumptions out_of_model_iff.
+Print Assumptions no_props_refused.
+Print Assumptions first_bad_key_decides.
+Print Assumptions missing_key_refused.
+Print Assumptions none_value_refused.
+Print Assumptions non_int_refused.
+Print Assumptions validate_error_classes.
+Print Assumptions extra_keys_ignored.
+Print Assumptions mode_of_env_iff.
+Print Assumptions init_primitives_fixed.
+Print Assumptions init_primitives_today_never.
+Print Assumptions init_primitives_today_refuted.
